@@ -393,6 +393,8 @@ theorem symmetric_route_reversed (recursive : Bool) (t t' : Table) (src dst : Np
   unfold fullAddRoute at h
   split at h
   · cases h
+  split at h
+  · cases h
   · simp only [Bool.true_and, ne_eq, hne, not_false_eq_true, decide_true, if_true] at h
     split at h
     · cases h
@@ -412,6 +414,8 @@ theorem oneway_route_not_reversed (recursive : Bool) (t t' : Table) (src dst : N
     (links : List Lk) (hne : src ≠ dst) (h : fullAddRoute recursive t src dst gs gd links false = some t') :
     (fullLocal t' src dst).links = links ∧ tableGet t' dst src = tableGet t dst src := by
   unfold fullAddRoute at h
+  split at h
+  · cases h
   split at h
   · cases h
   · simp only [Bool.false_and, Bool.false_eq_true, if_false] at h
